@@ -1531,6 +1531,24 @@ impl<const M: usize> Exec<M> {
                 self.fail("C09", "held-memory-changed-on-failure", format!("before={:?} after={:?}", held_before, self.held));
             }
         }
+        // C19: a size that cannot be represented ends in Err (fallible) or a panic (infallible), nothing else
+        let impossible = match op {
+            Op::Slice { kind, ety, n, .. } if *kind >= 3 => {
+                let (esz, eal) = ety_layout(*ety);
+                esz.checked_mul(*n).map(|t| t > ISIZE_MAX + 1 - eal).unwrap_or(true)
+            }
+            Op::New { cap, .. } => *cap > ISIZE_MAX + 1 - M,
+            _ => false,
+        };
+        if impossible {
+            let ok = if fallible { matches!(res, Res::Err) } else { matches!(res, Res::Panic) };
+            if !ok {
+                self.fail("C19", "impossible-size-not-refused-properly", format!("{} fallible={} res={}", op.to_text(), fallible, res.text()));
+            }
+            if !evs.is_empty() {
+                self.fail("C19", "impossible-size-reached-allocator", format!("{} evt={}", op.to_text(), evs_to_str(&evs)));
+            }
+        }
         if let Some((prop, name)) = expect_no_malloc {
             if evs.iter().any(|e| matches!(e, Ev::Malloc { .. })) || !matches!(res, Res::Ok(_) | Res::OkInner(..)) {
                 self.fail(prop, name, format!("{} cap-before={} res={} evt={}", op.to_text(), cap_before, res.text(), evs_to_str(&evs)));
